@@ -327,13 +327,22 @@ class Runner:
         return o, info
 
     def run(self, jobs):
-        obs, infos = [], {}
+        obs, infos = {}, {}
         with concurrent.futures.ThreadPoolExecutor(max_workers=self.jobs) as ex:
             for o, info in ex.map(self.one, jobs):
-                obs.append(o)
+                obs[o["id"]] = o
                 infos[o["id"]] = info
+        # a run that reached the time limit is repeated with three times the limit while nothing else runs
+        # (the machine may be shared): only the second observation counts
+        again = [dict(j, limit=3 * j.get("limit", self.limit)) for j in jobs if obs[j["id"]]["to"] == 1]
+        self.confirmed_timeouts = len(again)
+        if again:
+            with concurrent.futures.ThreadPoolExecutor(max_workers=2) as ex:
+                for o, info in ex.map(self.one, again[:40]):
+                    obs[o["id"]] = o
+                    infos[o["id"]] = info
         shutil.rmtree(self.root, ignore_errors=True)
-        return obs, infos
+        return [obs[j["id"]] for j in jobs], infos
 
 
 def tool(name, build=None):
@@ -415,3 +424,26 @@ def judge_selftest(ctx, module):
         raise Broken("JUDGE self test failed: rejected %s, expected %s" % (got, want))
     ctx.judged = getattr(ctx, "judged", 0) - len(obs)
     return len(want)
+
+
+# mistakes after which the parser reaches the end of the token list inside a statement: where reads past the end hide;
+# the sanitized binaries (6 to 10 times slower to start) are run on these first
+EOF_KINDS = {"eof_after_kw", "eof_mid", "eof_before_end", "insert_eof", "foreign_eof", "drop_semi", "drop_close", "drop_rbr", "drop_rpa",
+             "drop_gt", "empty_arg", "open_str", "open_str_last", "open_comment", "open_comment_after", "open_opt", "open_iface",
+             "lastword_array_open", "rawstr_open", "lone_quote", "lone_dquote", "raw", "valid"}
+
+
+def sanitized_subset(cases, budget):
+    """one case per (variant, keyword, mistake): first the mistakes of EOF_KINDS, then the others, up to the budget"""
+    seen, first, second = set(), [], []
+    for c in cases:
+        k = (c["dsl"], c["kw"], c["mut"])
+        if k in seen:
+            continue
+        seen.add(k)
+        (first if c["mut"] in EOF_KINDS else second).append(c)
+    out = first[:budget]
+    if len(out) < budget and second:
+        step = max(1, len(second) // (budget - len(out)))
+        out += second[::step][:budget - len(out)]
+    return out
